@@ -290,6 +290,7 @@ class Report(object):
         self.known = []
         self.distribution = {}
         self.notes = []
+        self.trail = None         # payloads of the cases run so far (modules whose cases share process state set it to [])
 
     def count(self, key, n=1):
         self.distribution[key] = self.distribution.get(key, 0) + n
